@@ -5,6 +5,7 @@ Inductive op12 :=
 | OCumsum (t : tensor ZO) (dims : list nat)
 | ORepeat (t : tensor ZO) (reps : list nat)          (* one count per existing mode *)
 | OPad0 (t : tensor ZO) (ds : list (nat * nat))      (* (mode, new size) *)
+| OPadC (t : tensor ZO) (ds : list (nat * nat)) (c : Z)   (* pad(t) + c * (1 - pad(ones)) *)
 | OTtm (t : tensor ZO) (fs : list (nat * nat * list Z))   (* (mode, rows, row-major matrix rows x size) *)
 | OCat (k : nat) (ts : list (tensor ZO))
 | OMask (t m : tensor ZO)
@@ -33,6 +34,14 @@ Definition run (o : op12) : option netZ :=
   | OCumsum t dims => Some (fold_left (fun cs d => cumsum_net d cs) dims (sem t))
   | ORepeat t reps => Some (snd (fold_left (fun (st : nat * netZ) r => (S (fst st), repeat_net (fst st) r (snd st))) reps (O, sem t)))
   | OPad0 t ds => Some (fold_left (fun cs (p : nat * nat) => embed_net (fst p) 0 (snd p) cs) ds (sem t))
+  | OPadC t ds c =>
+      let pad0 := fun cs => fold_left (fun cs (p : nat * nat) => embed_net (fst p) 0 (snd p) cs) ds cs in
+      let n := length t in
+      let box := pad0 (full_net (K:=ZO) 1%Z (shape t)) in
+      match sadd_net (K:=ZO) 1%Z (smul_net (first_scaled (K:=ZO) (-1)%Z n) box) with
+      | Some w => add_net (pad0 (sem t)) (smul_net (first_scaled (K:=ZO) c n) w)
+      | None => None
+      end
   | OTtm t fs => Some (fold_left (fun cs (f : nat * nat * list Z) =>
                    let '(k, rows, m) := f in ttm_net k rows (get2 (K:=ZO) (dm_at k cs) m) cs) fs (sem t))
   | OCat k ts => match ts with [] => None | t :: ts' => cat_all k (Some (sem t)) (map (@sem ZO) ts') end
